@@ -366,8 +366,10 @@ func main() {
 	// through buffetch for root / module / parent-directory / proto-file / inside-module inputs
 	nLocked := run.N(450, 3000)
 	total := nMem + nDisk + nLocked
+	// C10_BID_ONLY=1 (development aid): run only Family B (bucketid.go)
+	bidOnly := os.Getenv("C10_BID_ONLY") == "1"
 	for i := 0; i < total; i++ {
-		if run.Only >= 0 && i != run.Only {
+		if (run.Only >= 0 && i != run.Only) || bidOnly {
 			continue
 		}
 		r := rnd.Fork(uint64(i))
@@ -383,9 +385,19 @@ func main() {
 		ws := wsgen.Gen(r, wsgen.Opts{Kind: kind, Faults: true, CommitTies: true})
 		oneCase(run, i, ws, filepath.Join(tmpRoot, strconv.Itoa(i)))
 	}
-	if run.Only < 0 {
-		commitTie(run)
-		depGraphCLI(run, rnd.Fork(1<<40), filepath.Join(run.OutDir, "dg"))
+	if run.Only < 0 || run.Only >= bidBase {
+		dgRoot := filepath.Join(run.OutDir, "dg")
+		bufBin := buildBuf(run, dgRoot)
+		if run.Only < 0 && !bidOnly {
+			commitTie(run)
+			depGraphCLI(run, rnd.Fork(1<<40), dgRoot, bufBin)
+		}
+		// Family B: BucketIDs / OpaqueIDs of modules sharing a path, directories named like derived
+		// ids (bucketid.go); its own random stream, case indexes 1000000+k
+		bucketIDFamily(run, rnd.Fork(1<<41), filepath.Join(run.OutDir, "bid"), bufBin)
+		if bufBin != "" {
+			os.Remove(bufBin)
+		}
 	}
 	os.RemoveAll(tmpRoot)
 }
